@@ -13,7 +13,7 @@ ASSUMPTIONS = sched.ASSUMPTIONS + ['empty initial environment',
                                    'specification F(graph, kinds): SKIPPED iff a hard dependency is FAILED/SKIPPED under F, else DONE iff do() '
                                    'returned a well-formed (update, DONE), FAILED for every other outcome kind; soft edges do not appear in F']
 OUTSIDE = [x for x in sched.OUTSIDE if 're-use' not in x] + ['re-use of one backend/Scheduler OBJECT for several schedule() calls (a fresh Scheduler and backend per run, as the run command does; earlier runs on the same TASK objects are covered by two configurations)']
-BOUNDS = dict(**{'quick': {'tasks': 2, 'graphs': 'all 3 labelled graphs on 2 tasks', 'workers': [1, 2],
+BOUNDS = dict(**{'quick': {'tasks': 2, 'graphs': 'all 3 labelled graphs on 2 tasks', 'workers': [1],
                                               'plus': '3-task chain, fan-in hard+soft, hard-then-soft chain with 1 worker',
                                               'outcomes': KINDS, 'depth': 'every run, first K = 22+11N+6W steps'},
                                     'thorough': {'tasks': '<= 3', 'graphs': 'all 27 labelled graphs on 3 tasks (W=1), 2-task graphs W<=2 (two workers: no-edge and hard-edge graphs only)',
@@ -92,7 +92,9 @@ def _job(n, hard, soft, w, tier, prior=None, seed=0):
 
 def jobs(tier):
     # n2w2-h_-s10: its three queries took 51 min in a full thorough run (per-query budget 45 min): outside the thorough bound
-    out = sched.standard_jobs(tier, _job, skip_thorough=('n2w2-h_-s10',))
+    # quick tier: the two-worker configuration costs 8.5 min with 11 outcome kinds (3 queries); it stays in the thorough tier,
+    # and C01's quick tier keeps two-worker configurations
+    out = sched.standard_jobs(tier, _job, light=('n2w2-h10-s_',), skip_thorough=('n2w2-h_-s10',))
     # "depends on the graph and task results only": the same task objects were scheduled before, in this
     # process, under a DIFFERENT graph (one concrete warm-up run precedes the extraction)
     for (n, hard, soft, w, prior) in [(2, [], [(1, 0)], 1, ([(1, 0)], [])), (2, [(1, 0)], [], 1, ([], []))]:
